@@ -303,7 +303,11 @@ func init() {
 						if h, _, err := net.SplitHostPort(tg); err == nil && net.ParseIP(h) != nil {
 							isip = "1"
 						}
-						emit("ce", "concurrent", hx(tg), strconv.Itoa(2+r.Intn(7)), isip)
+						kk := 2 + r.Intn(7)
+						if r.Chance(35) {
+							kk = []int{12, 24, 32, 48}[r.Intn(4)] // a page load: many tunnels to ONE new host at the same moment
+						}
+						emit("ce", "concurrent", hx(tg), strconv.Itoa(kk), isip)
 						used = append(used, tg)
 					}
 				}
